@@ -47,6 +47,9 @@ const std::vector<std::string>& block_texts()
         "int zf[int[0,1]][2]; zf[0][1]",
         "void zg() { int i; for (i = 0; i < 3; i++) { if (i > 1) {",
         "typedef struct { int a; int zh[2",
+        // literals beyond what the C library can represent (strtod/strtol set errno and nothing clears it)
+        "double zdd = 1e-400; double zde = 1e400; int zbig = 99999999999999999999;",
+        "gi0 < 99999999999999999999 || gi0 > 1e-400",
     };
     return v;
 }
@@ -59,6 +62,7 @@ const std::vector<int>& block_parts()
         S_GUARD,       S_INVARIANT,   S_EXPRESSION,  S_EXPRESSION,  S_EXPRESSION_LIST, S_SYSTEM,  S_SYSTEM,     S_DECLARATION,
         S_DECLARATION, S_INVARIANT,   S_PROBABILITY, S_EXPRESSION,  S_DECLARATION, S_LOCAL_DECL,  S_DECLARATION,
         S_DECLARATION, S_LOCAL_DECL,  S_DECLARATION, S_LOCAL_DECL,  S_DECLARATION, S_DECLARATION,
+        S_DECLARATION, S_GUARD,
     };
     return v;
 }
